@@ -202,7 +202,7 @@ def gen_case(rng, nops, crashy):
 
 
 def gen(rng, tier):
-    n = {"quick": 70, "thorough": 1200, "search": 250}[tier]
+    n = {"quick": 140, "thorough": 1500, "search": 250}[tier]
     return [gen_case(rng, rng.range(5, 12 if tier == "quick" else 18), i % 3 != 0) for i in range(n)]
 
 
@@ -324,13 +324,14 @@ def predict_text(c, o):
 
 
 def attribute(c, o):
-    """finding whose trigger the history contains (a crash inside a manager operation that was reached)"""
+    """finding whose trigger the history contains: a crash inside a manager operation that was actually reached at a hook point
+    where the pinned step order leaves an inconsistent persisted state"""
     f = None
     for op, oo in zip(c["ops"], o.get("ops", [])):
         if op["op"] == "crash" and oo.get("hit"):
             if op["point"] == "delete.afterRecord":
                 return "F07a"
-            if op["point"] not in ("create.afterNextId", "create.afterMeta", "rename.afterNewMeta", "delete.afterMeta"):
+            if op["point"] in ("create.afterRecord", "rename.afterMove", "rename.afterOldMeta", "delete.afterDeletedSet"):
                 f = f or "F19a"
     return f
 
